@@ -20,8 +20,8 @@ Lemma G5_registered fl s c r k :
 Proof.
   intros HG Hl Hk. destruct (G5_c4 fl s c HG) as [x4 [H4 [HS HR]]].
   pose proof (J_steps [] c4_init (rev (s_tr s)) x4 J_init H4) as HJ. simpl in HJ.
-  apply (j_live _ _ HJ) in Hl. destruct Hl as [g [Hg Er]].
-  pose proof (j_kind _ _ HJ g Hg) as Hkg. rewrite Er, Hk in Hkg. inversion Hkg as [Ek]. clear Hkg.
+  apply (proj2 (j_live _ _ HJ r)) in Hl. destruct Hl as [g [Hg Er]].
+  pose proof (j_kind _ _ HJ g Hg) as Hkg. rewrite Er, Hk in Hkg. assert (Ek : k = g_kind g) by congruence. clear Hkg.
   destruct k as [p | fd dir | tmo]; simpl.
   - (* an immediate: it is in the queue of its priority *)
     pose proof (G5_imm fl s c HG) as HO.
